@@ -18,9 +18,17 @@ void gstuff_autorecv_setbuf_v1(struct gstuff_autorecv_v1 *autom,
 int gstuff_autorecv_newchar_v1(struct gstuff_autorecv_v1 *autom, char c)
 {
     int sts;
+    char raw = c; /* the received byte, before unstuffing */
 
     switch (autom->state)
     {
+    case 3:
+        /* After an overflow or a stuffing error the rest of the frame is
+           skipped up to the next delimiter. */
+        if (c == GSTUFF_START_V1)
+            autom->state = 0;
+        return GSTUFF_CONTINUE_V1;
+
     case 0:
         gstuff_autorecv_reset_v1(autom);
 
@@ -76,7 +84,7 @@ int gstuff_autorecv_newchar_v1(struct gstuff_autorecv_v1 *autom, char c)
         default:
             // Невалидный пакет.
             sts = GSTUFF_DATA_ERROR_V1;
-            goto __finish__;
+            goto __error__;
         }
 
         goto __putchar__;
@@ -86,7 +94,7 @@ __putchar__:
     if (!sline_putchar(&autom->line, c))
     {
         sts = GSTUFF_OVERFLOW_V1;
-        goto __finish__;
+        goto __error__;
     }
     igris_strmcrc8(&autom->crc, c);
     autom->state = 1;
@@ -94,6 +102,11 @@ __putchar__:
 // fallthrow
 __continue__:
     return GSTUFF_CONTINUE_V1;
+
+__error__:
+    /* wait for the next delimiter (the offending byte may be one itself) */
+    autom->state = raw == GSTUFF_START_V1 ? 0 : 3;
+    return sts;
 
 __finish__:
     autom->state = 0;
